@@ -543,6 +543,8 @@ class Interp:
             return VStr('0123456789', 's')
         if mod == 'os' and name in ('path', 'environ'):
             return VModule('os.' + name)
+        if mod == 'os' and name == 'name':
+            return VStr('posix', 's')
         if mod == 'os' and name == 'defpath':
             return VStr(':/bin:/usr/bin', 's')
         if mod == 'os' and name == 'pathsep':
